@@ -79,6 +79,7 @@ fn main() {
                 }
             }
         }
+        "c09child" if args.len() >= 3 => props::c09::child(&args[2..]),
         "list" => {
             for p in props::ALL {
                 println!("{}", p);
